@@ -428,7 +428,24 @@ static void on_death(void) {
 }
 
 /* run one process; returns its report (malloc'ed) or NULL when not logging */
+static char *run_process_once(const char *dir, int from, int to, long die_at, int want_log,
+                              int *env_failure);
+
+/* a child that could not even create its context / bind its endpoint (exit code 3, nothing of
+ * the persistence code has run yet) is an accident of the machine, not a result: try again */
 static char *run_process(const char *dir, int from, int to, long die_at, int want_log) {
+  char *rep = NULL;
+  for (int attempt = 0; attempt < 6; attempt++) {
+    int envf = 0;
+    rep = run_process_once(dir, from, to, die_at, want_log, &envf);
+    if (!envf) break;
+    if (attempt < 5) { free(rep); rep = NULL; usleep(50000 * (attempt + 1)); }
+  }
+  return rep;
+}
+
+static char *run_process_once(const char *dir, int from, int to, long die_at, int want_log,
+                              int *env_failure) {
   int pfd[2] = {-1, -1};
   if (want_log && pipe(pfd) != 0) return NULL;
   fflush(stdout);
@@ -467,6 +484,7 @@ static char *run_process(const char *dir, int from, int to, long die_at, int wan
   }
   int st;
   waitpid(pid, &st, 0);
+  *env_failure = WIFEXITED(st) && WEXITSTATUS(st) == 3;
   if (want_log && (!rep || !rep[0])) {
     free(rep);
     rep = (char *)malloc(64);
@@ -482,7 +500,19 @@ static char *run_process(const char *dir, int from, int to, long die_at, int wan
 }
 
 /* a fresh process on a copy of dir: startup, dump, notify everything; returns the dump */
+static char *run_restart_dump_once(const char *dir, int *env_failure);
 static char *run_restart_dump(const char *dir) {
+  char *rep = NULL;
+  for (int attempt = 0; attempt < 6; attempt++) {
+    int envf = 0;
+    rep = run_restart_dump_once(dir, &envf);
+    if (!envf) break;
+    if (attempt < 5) { free(rep); rep = NULL; usleep(50000 * (attempt + 1)); }
+  }
+  return rep;
+}
+
+static char *run_restart_dump_once(const char *dir, int *env_failure) {
   char tmp[500];
   fresh_dir(tmp, sizeof(tmp));
   copy_dir(dir, tmp);
@@ -535,6 +565,7 @@ static char *run_restart_dump(const char *dir) {
   close(pfd[0]);
   int st;
   waitpid(pid, &st, 0);
+  *env_failure = WIFEXITED(st) && WEXITSTATUS(st) == 3;
   if (!(WIFEXITED(st) && WEXITSTATUS(st) == 0)) {
     char *r2 = (char *)malloc(strlen(rep) + 64);
     sprintf(r2, "CHILD-FAILED-%d:%s", WIFEXITED(st) ? WEXITSTATUS(st) : -WTERMSIG(st), rep);
